@@ -347,6 +347,9 @@ def qobjevo_ops(T, fmts):
                     "iadd_on_copy": lambda d: _iadd_copy(d),
                     "compress_copy": lambda d: d["Q1"].copy().compress() if hasattr(d["Q1"].copy(), "compress") else None,
                     "arguments_copy": lambda d: _args_copy(d),
+                    # tidying up a copy, or an object built from this one and from a plain operator, with a threshold that removes
+                    # entries of order one: the originals keep theirs
+                    "tidyup_on_copies": lambda d: (d["Q1"].copy().tidyup(0.6), qutip.QobjEvo(d["Q1"]).tidyup(0.6), (d["Q1"] + d["Q2"]).tidyup(0.6), (d["op"] + d["Q1"]).tidyup(0.6)),
                 }
                 for nm, fn in ops.items():
                     T.check(f"QobjEvo.{nm}:{fmt}/{fname}/{sfmt}", inputs, fn, detail={"fmt": fmt, "form": fname, "state": sfmt})
